@@ -161,3 +161,6 @@ Definition Qc_zerob (x:Qc) : bool := Qc_eq_bool x (Q2Qc 0).
 Definition showOM (o:option (list (list Qc))) : string :=
   match o with Some M => showMat M | None => "none"%string end.
 Definition realise_shift_Qc := realise_shift QcOps Qc_zerob.
+(* "A_n|C_n" of the first n columns of an observability estimate (rows x n), exact *)
+Definition show_pair (l:nat) (Obs:list (list Qc)) : string :=
+  (showOM (realise_A QcOps Qc_zerob l Obs) ++ "|" ++ showMat (realise_C l Obs))%string.
